@@ -118,6 +118,25 @@ class Fn:
     def local_size(self, l):
         return self.locals[l][2]
 
+    ROLE_TYPES = {
+        "dst_view": r"^&mut impl (image_view::)?ImageViewMut<",
+        "src_view": r"^&impl (image_view::)?ImageView<",
+        "cropped_src_view": r"CroppedSrcImageView<",
+    }
+
+    def param_by_role(self, role):
+        """index of the parameter that plays `role`: the one of that name, else the only
+        parameter whose type fits the role (names are the author's choice, types are not)"""
+        i = self.param_index(role)
+        if i is not None:
+            return i
+        pat = self.ROLE_TYPES.get(role)
+        if pat:
+            c = [i for i in range(1, self.arg_count + 1) if re.search(pat, self.locals[i][0] or "")]
+            if len(c) == 1:
+                return c[0]
+        return None
+
     def param_index(self, name):
         for i in range(1, self.arg_count + 1):
             if self.locals[i][1] == name:
@@ -227,11 +246,59 @@ class Fn:
         return [f for f in self.prog.fns.values() if f.d.get("parent") == self.id]
 
 
+# Parameter roles of the ImageView / ImageViewMut methods, by position: the signatures are fixed
+# by the traits, the *names* an implementation gives its parameters are not. Rules speak about
+# roles ("the start row"), so the names are normalised when the facts are loaded.
+TRAIT_METHOD_PARAMS = {
+    "iter_rows": ["start_row"], "iter_rows_mut": ["start_row"],
+    "iter_2_rows": ["start_y", "max_rows"], "iter_4_rows": ["start_y", "max_rows"],
+    "iter_rows_with_step": ["start_y", "step", "max_rows"],
+    "split_by_height": ["start_row", "height", "num_parts"],
+    "split_by_height_mut": ["start_row", "height", "num_parts"],
+    "split_by_width": ["start_col", "width", "num_parts"],
+    "split_by_width_mut": ["start_col", "width", "num_parts"],
+}
+
+
+# public functions whose parameter order is part of the API
+PUBLIC_FN_PARAMS = {
+    "crop_box::CropBox::fit_src_into_dst_size":
+        (["src_width", "src_height", "dst_width", "dst_height", "centering"], ["u32", "u32", "u32", "u32"]),
+}
+
+
+def _canonical_trait_params(data):
+    for k, d in data["fns"].items():
+        spec = PUBLIC_FN_PARAMS.get(d.get("name"))
+        if spec and d.get("pub"):
+            b = d.get("body") or {}
+            names, tys = spec
+            if b.get("arg_count") == len(names) and all(b["locals"][i + 1][0] == t for i, t in enumerate(tys)):
+                for i, r in enumerate(names):
+                    b["locals"][i + 1][1] = r
+            continue
+        m = d.get("method")
+        roles = TRAIT_METHOD_PARAMS.get(m)
+        if not roles or d.get("kind") == "closure":
+            continue
+        tr = str(d.get("trait") or d.get("impl_of") or d.get("name") or "")
+        if "ImageView" not in tr and "image_view" not in tr:
+            continue
+        b = d.get("body") or {}
+        if b.get("arg_count") != len(roles) + 1:
+            continue
+        for i, r in enumerate(roles):
+            loc = b["locals"][i + 2]
+            if loc[1] != r:
+                loc[1] = r
+
+
 class Program:
     def __init__(self, data):
         self.data = data
         self.config = data["config"]
         self.cfg_name = self.config.get("cfg_name")
+        _canonical_trait_params(data)
         self.fns = {k: Fn(self, k, v) for k, v in data["fns"].items()}
         self.adts = data["adts"]
         self.statics = data["statics"]
